@@ -315,10 +315,14 @@ def traffic_pair(kind, k):
         got = app[dst].ui_rcvd
         ev.append(dict(a="Data", dir=d, kind="UI", sent=len(sent), rcvd=len(got), ok=all(g in sent for g in got),
                        problems=len(app[src].errors)))
-        sent = [tf.pattern(tag, n) for tag, n in app[src].i_sent]
-        got = app[dst].i_rcvd
-        ev.append(dict(a="Data", dir=d, kind="I", sent=len(sent), rcvd=len(got), ok=got == sent[:len(got)],
-                       problems=len(app[src].errors)))
+        for mine, theirs in (("out", "in"), ("in", "out")):
+            sent = [tf.pattern(tag, n) for tag, n in app[src].i_sent[mine]]
+            got = app[dst].i_rcvd[theirs]
+            ev.append(dict(a="Data", dir=d, kind="I", sent=len(sent), rcvd=len(got), ok=got == sent[:len(got)],
+                           problems=len(app[src].errors)))
+            if mine in app[src].over:
+                n, accepted, sap = app[src].over[mine]
+                ev.append(dict(a="Over", dir=d, sap=sap, n=n, accepted=accepted))
     return tr
 
 
@@ -365,6 +369,8 @@ def classify(tr, v):
             if act == "Llc":
                 what = ":" + (e["t"] + ("(%s)" % "+".join(sorted({p["t"] for p in e["inner"]})) if e["inner"] else e["t"]))
             return "Obey:%s:%s%s:exceeds-receiver-limit-by-%d" % (f["layer"], f["dir"], what, f["size"] - f["limit"])
+        if name == "Refused":
+            return "Refused:%s:send()-accepts-a-message-beyond-the-receiver's-connection-and-link-MIU" % e.get("dir")
         if name == "RwtKept":
             return K_RWT
         if name == "LtoKept":
@@ -417,7 +423,7 @@ def mutate_traffic_selftest(tr):
 
 
 WITNESSES = ["W_Psl", "W_NoPsl", "W_Down", "W_Acm", "W_MaxMiu", "W_ConnLim", "W_Full"]
-INVS = ["Obey", "BitRate", "Timeouts", "LtoKept", "RwtKept", "Delivered", "LinkUp"]
+INVS = ["Refused", "Obey", "BitRate", "Timeouts", "LtoKept", "RwtKept", "Delivered", "LinkUp"]
 K_RWT = "RwtKept:T:target-run-loop-pause-exceeds-the-RWT-it-announced"
 K_LTO = "LtoKept:%s:run-loop-idle-pause-exceeds-the-LTO-it-announced"
 
